@@ -129,7 +129,6 @@ type Enc struct {
 	writesV    map[string]bool
 	prefix     string // name prefix for relational copies
 	errs       []string
-	seqTerms   []Sl // slices that took part in Equal/Compare (for extensionality instantiation)
 	strConsts  map[string]Str
 	globals    map[string]Val
 	tier       string
@@ -138,7 +137,15 @@ type Enc struct {
 	decls      []string          // declarations that every query of this encoding includes
 	keySorts   map[string]string // every state variable key seen so far
 	seqPairs   []seqPair
+	seqTerms   []seqAt
+	seqAbstract bool // relational mode: sequences are abstract ids, no content quantifiers
 	usesSeq    bool
+	rel        *relInfo
+	seqByID    map[string]seqTerm
+	specSorts  map[string]specSort
+	opaqueSeqs []opaqueSeqAt
+	opaqueReads bool // relational mode: byte readers in contracts are uninterpreted
+	noObl      int
 	loopDry    int
 	usesLex    bool
 	topName    string
@@ -220,7 +227,7 @@ func (e *Enc) assume(t T) {
 }
 
 func (e *Enc) oblige(kind, name string, goal T, pos token.Pos) {
-	if e.dry > 0 {
+	if e.dry > 0 || (e.noObl > 0 && kind != "rel") {
 		return
 	}
 	if goal.S == "true" {
